@@ -91,42 +91,66 @@ end IStream
 
 theorem ofInt_neg_one : BitVec.ofInt 64 (-1) = u64max := by decide
 
+/-- the stream-size probe neither sets nor clears failbit on the modelled stream kinds (seeking
+    to the end of a string- or file-backed stream that has not failed never fails) -/
+theorem seekEnd_tellg_fail (st : IStream) : (st.seekEnd.tellg).1.fail = st.fail := by
+  unfold IStream.seekEnd IStream.tellg IStream.good
+  cases hf : st.fail <;> simp
+
+/-- the `clear()` branch of the probe (streams that cannot seek to their end) is dead here: the
+    probe does not depend on the translation table -/
+theorem streamSizeOf_eq (tr : List Trans) (st : IStream) :
+    streamSizeOf tr st = ((st.seekEnd.tellg).1, BitVec.ofInt 64 (st.seekEnd.tellg).2) := by
+  unfold streamSizeOf
+  simp only [sec64_load_unseekable, seekEnd_tellg_fail]
+  cases st.fail <;> cases tr.isEmpty <;> rfl
+
+theorem streamSizeOf_tr_indep (tr tr' : List Trans) (st : IStream) :
+    streamSizeOf tr st = streamSizeOf tr' st := by
+  rw [streamSizeOf_eq, streamSizeOf_eq]
+
+theorem streamSizeOf_val (tr : List Trans) (st : IStream) :
+    streamSizeOf tr st =
+      if st.fail then ({ st with eof := false, fail := true }, u64max)
+      else ({ st with eof := false, pos := st.data.length }, BitVec.ofNat 64 st.data.length) := by
+  rw [streamSizeOf_eq]
+  unfold IStream.seekEnd IStream.tellg IStream.good
+  cases hf : st.fail
+  · simp
+  · simp [ofInt_neg_one]
+
 theorem streamSizeOf_nil (st : IStream) :
     streamSizeOf [] st =
       if st.fail then ({ st with eof := false, fail := true }, u64max)
-      else ({ st with eof := false, pos := st.data.length }, BitVec.ofNat 64 st.data.length) := by
-  unfold streamSizeOf IStream.seekEnd IStream.tellg IStream.good
-  cases hf : st.fail
-  · simp [hf]
-  · simp [hf, ofInt_neg_one]
-
-theorem streamSizeOf_cons (t : Trans) (tr : List Trans) (st : IStream) :
-    streamSizeOf (t :: tr) st = (st, u64max) := rfl
+      else ({ st with eof := false, pos := st.data.length }, BitVec.ofNat 64 st.data.length) :=
+  streamSizeOf_val [] st
 
 @[simp] theorem streamSizeOf_data (tr : List Trans) (st : IStream) : (streamSizeOf tr st).1.data = st.data := by
-  cases tr with
-  | nil => rw [streamSizeOf_nil]; split <;> rfl
-  | cons t tr => rfl
+  rw [streamSizeOf_val]; split <;> rfl
 
 @[simp] theorem streamSizeOf_kind (tr : List Trans) (st : IStream) : (streamSizeOf tr st).1.kind = st.kind := by
-  cases tr with
-  | nil => rw [streamSizeOf_nil]; split <;> rfl
-  | cons t tr => rfl
+  rw [streamSizeOf_val]; split <;> rfl
 
 /-- a failed stream stays failed through the stream-size probe -/
 theorem streamSizeOf_fail (tr : List Trans) (st : IStream) (h : st.fail = true) :
     (streamSizeOf tr st).1.fail = true := by
-  cases tr with
-  | nil => rw [streamSizeOf_nil]; simp [h]
-  | cons t tr => exact h
+  rw [streamSizeOf_val]; simp [h]
 
-/-- without address translation the recorded stream size is the input length, or
+/-- the probe leaves failbit as it was -/
+theorem streamSizeOf_fail_eq (tr : List Trans) (st : IStream) : (streamSizeOf tr st).1.fail = st.fail := by
+  rw [streamSizeOf_val]; cases hf : st.fail <;> simp
+
+/-- with or without address translation the recorded stream size is the input length, or
     `SIZE_MAX` exactly when the stream had failed before -/
+theorem streamSizeOf_size (tr : List Trans) (st : IStream) :
+    (st.fail = false ∧ (streamSizeOf tr st).2 = BitVec.ofNat 64 st.data.length) ∨
+    (st.fail = true ∧ (streamSizeOf tr st).2 = u64max) := by
+  rw [streamSizeOf_val]
+  cases hf : st.fail <;> simp
+
 theorem streamSizeOf_nil_size (st : IStream) :
     (st.fail = false ∧ (streamSizeOf [] st).2 = BitVec.ofNat 64 st.data.length) ∨
-    (st.fail = true ∧ (streamSizeOf [] st).2 = u64max) := by
-  rw [streamSizeOf_nil]
-  cases hf : st.fail <;> simp
+    (st.fail = true ∧ (streamSizeOf [] st).2 = u64max) := streamSizeOf_size [] st
 
 /-! ### `isolatedRead` -/
 
@@ -206,10 +230,10 @@ structure LoadedSec (tr : List Trans) (b : SecBuf) (img : Bytes) : Prop where
     d = slice img (dataOff tr b.offset).toNat b.size.toNat ++ [0] ∧
     (slice img (dataOff tr b.offset).toNat b.size.toNat).length = b.size.toNat
   dsz : ∀ d, b.data = some d → b.dataSize = b.size
-  /-- recorded stream size: the input length, or `SIZE_MAX` (translation in use, or the stream
-      had failed before: then the section is the zeroed `SHT_NULL` one without data) -/
-  ss : (tr = [] ∧ b.streamSize = BitVec.ofNat 64 img.length) ∨
-       (b.streamSize = u64max ∧ (tr = [] → isNullOrNobitsTy b.stype = true ∧ b.data = none))
+  /-- recorded stream size: the input length (with or without address translation), or `SIZE_MAX`
+      when the stream had failed before: then the section is the zeroed `SHT_NULL` one without data -/
+  ss : b.streamSize = BitVec.ofNat 64 img.length ∨
+       (b.streamSize = u64max ∧ isNullOrNobitsTy b.stype = true ∧ b.data = none)
 
 /-- the first `size` bytes of a resident buffer are the bytes of the input at the offset -/
 theorem LoadedSec.bytes {tr img} {b : SecBuf} (h : LoadedSec tr b img) (d : Bytes) (hd : b.data = some d) :
@@ -254,11 +278,12 @@ theorem SameHdr.trans {a b c : SecBuf} (h1 : SameHdr a b) (h2 : SameHdr b c) : S
   · exact h1.index.trans h2.index
   · exact h1.isLazy.trans h2.isLazy
 
-/-- an allocation request of the loader: `size + 1` bytes for a byte range that (without
-    address translation) lies inside the input -/
-def AllocOk (tr : List Trans) (img : Bytes) (n : Nat) : Prop :=
+/-- an allocation request of the loader: `size + 1` bytes for a byte range that lies inside the
+    input stream (at its translated position when an address translation table is set; `tr` is kept
+    as a parameter for the callers, the bound no longer depends on it) -/
+def AllocOk (_tr : List Trans) (img : Bytes) (n : Nat) : Prop :=
   ∃ off size : Nat, n = size + 1 ∧
-    (tr = [] → img.length < 18446744073709551616 → off + size ≤ img.length)
+    (img.length < 18446744073709551616 → off + size ≤ img.length)
 
 /-- the loader's threaded state: the stream still is the input, all requests so far are fine -/
 structure StOk (tr : List Trans) (img : Bytes) (kind : StreamKind) (ls : LoadSt) : Prop where
@@ -312,12 +337,11 @@ theorem secLoadData_allocOk {tr img} {b : SecBuf} (hb : LoadedSec tr b img)
     (h4 : sec64_load_data_sizet b.size = false) :
     AllocOk tr img (sec64_load_data_alloc b.size).toNat := by
   refine ⟨(dataOff tr b.offset).toNat, b.size.toNat, g_sizet_false h4, ?_⟩
-  intro htr hlen
+  intro hlen
   have hle := g_size_gt_false h2 (g_off_gt_false h1)
-  rcases hb.ss with ⟨-, hss⟩ | ⟨-, hn⟩
+  rcases hb.ss with hss | ⟨-, hn, -⟩
   · rw [hss, toNat_ofNat_len hlen] at hle; exact hle
-  · have := (hn htr).1
-    simp [this] at h3
+  · simp [hn] at h3
 
 theorem secLoadData_spec (c : Cls) (tr : List Trans) (ls : LoadSt) (b : SecBuf) (img : Bytes)
     (kind : StreamKind) (hs : StOk tr img kind ls) (hb : LoadedSec tr b img) :
@@ -340,13 +364,12 @@ theorem secLoadData_spec (c : Cls) (tr : List Trans) (ls : LoadSt) (b : SecBuf) 
       cases hx : isNullOrNobitsTy b.stype <;> simp [hx] at h3 ⊢
     -- the stream-size clause of the invariant for a non-null section that gets data
     have hss : ∀ b' : SecBuf, b'.streamSize = b.streamSize → b'.stype = b.stype →
-        (tr = [] ∧ b'.streamSize = BitVec.ofNat 64 img.length) ∨
-        (b'.streamSize = u64max ∧ (tr = [] → isNullOrNobitsTy b'.stype = true ∧ b'.data = none)) := by
+        b'.streamSize = BitVec.ofNat 64 img.length ∨
+        (b'.streamSize = u64max ∧ isNullOrNobitsTy b'.stype = true ∧ b'.data = none) := by
       intro b' e1 e2
-      rcases hb.ss with ⟨ht, hv⟩ | ⟨hv, hn⟩
-      · exact Or.inl ⟨ht, e1 ▸ hv⟩
-      · refine Or.inr ⟨e1 ▸ hv, fun ht => ?_⟩
-        have := (hn ht).1; rw [hnn] at this; exact absurd this (by decide)
+      rcases hb.ss with hv | ⟨-, hn, -⟩
+      · exact Or.inl (e1 ▸ hv)
+      · rw [hnn] at hn; exact absurd hn (by decide)
     by_cases h5 : (b.size != 0) = true
     · rw [if_pos h5]
       have hsz : b.size ≠ 0 := by simpa using h5
@@ -502,17 +525,14 @@ theorem secLoad_eq (c : Cls) (enc : Enc) (tr : List Trans) (ls : LoadSt) (hdrOff
 theorem secLoad_ss (tr : List Trans) (st : IStream) (hdrOff : Int) (n : Nat) (img : Bytes)
     (hd : st.data = img) (stype : BitVec 32)
     (h : (hdrRead tr st hdrOff n).1.gcount ≠ 0 ∨ isNullOrNobitsTy stype = true) :
-    (tr = [] ∧ (streamSizeOf tr st).2 = BitVec.ofNat 64 img.length) ∨
+    (streamSizeOf tr st).2 = BitVec.ofNat 64 img.length ∨
     ((streamSizeOf tr st).2 = u64max ∧
-      (tr = [] → isNullOrNobitsTy stype = true ∧ (none : Option Bytes) = none)) := by
-  cases tr with
-  | cons t tr => exact Or.inr ⟨rfl, fun h => by cases h⟩
-  | nil =>
-    rcases streamSizeOf_nil_size st with ⟨-, h2⟩ | ⟨h1, h2⟩
-    · exact Or.inl ⟨rfl, hd ▸ h2⟩
-    · rcases h with h | h
-      · exact absurd (hdrRead_failed [] st hdrOff n h1).1 h
-      · exact Or.inr ⟨h2, fun _ => ⟨h, rfl⟩⟩
+      isNullOrNobitsTy stype = true ∧ (none : Option Bytes) = none) := by
+  rcases streamSizeOf_size tr st with ⟨-, h2⟩ | ⟨h1, h2⟩
+  · exact Or.inl (hd ▸ h2)
+  · rcases h with h | h
+    · exact absurd (hdrRead_failed tr st hdrOff n h1).1 h
+    · exact Or.inr ⟨h2, h, rfl⟩
 
 theorem StOk.setSt {tr img kind} {ls : LoadSt} (h : StOk tr img kind ls) (st : IStream)
     (hd : st.data = img) (hk : st.kind = kind) : StOk tr img kind { ls with st := st } :=
@@ -555,8 +575,8 @@ structure LoadedSeg (tr : List Trans) (g : Seg) (img : Bytes) : Prop where
   exact : ∀ d, g.data = some d →
     d = slice img (dataOff tr g.offset).toNat g.filesz.toNat ++ [0] ∧
     (slice img (dataOff tr g.offset).toNat g.filesz.toNat).length = g.filesz.toNat
-  ss : (tr = [] ∧ g.streamSize = BitVec.ofNat 64 img.length) ∨
-       (g.streamSize = u64max ∧ (tr = [] → seg64_load_data_skip g.stype g.filesz = true ∧ g.data = none))
+  ss : g.streamSize = BitVec.ofNat 64 img.length ∨
+       (g.streamSize = u64max ∧ seg64_load_data_skip g.stype g.filesz = true ∧ g.data = none)
 
 theorem LoadedSeg.bytes {tr img} {g : Seg} (h : LoadedSeg tr g img) (d : Bytes) (hd : g.data = some d) :
     d.take g.filesz.toNat = slice img (dataOff tr g.offset).toNat g.filesz.toNat ∧
@@ -625,9 +645,9 @@ theorem LoadedSeg.of_same {tr img} {g g' : Seg} (h : LoadedSeg tr g img)
 theorem LoadedSeg.dropData {tr img} {g : Seg} (h : LoadedSeg tr g img) :
     LoadedSeg tr { g with data := none } img := by
   refine ⟨fun d hd => (by simp at hd), fun d hd => (by simp at hd), ?_⟩
-  rcases h.ss with h1 | ⟨h1, h2⟩
+  rcases h.ss with h1 | ⟨h1, h2, -⟩
   · exact Or.inl h1
-  · exact Or.inr ⟨h1, fun ht => ⟨(h2 ht).1, rfl⟩⟩
+  · exact Or.inr ⟨h1, h2, rfl⟩
 
 /-- the header-side fields of a segment -/
 structure SameSegHdr (g' g : Seg) : Prop where
@@ -663,23 +683,23 @@ theorem segLoadData_spec (c : Cls) (tr : List Trans) (ls : LoadSt) (g : Seg) (im
   rw [if_neg h4]
   have hal : AllocOk tr img (sec64_load_data_alloc g.filesz).toNat := by
     refine ⟨(dataOff tr g.offset).toNat, g.filesz.toNat, g_sizet_false (by simpa using h4), ?_⟩
-    intro htr hlen
+    intro hlen
     have hle := g_size_gt_false (by simpa using h2) (g_off_gt_false (by simpa using h1))
-    rcases hg.ss with ⟨-, hss⟩ | ⟨-, hn⟩
+    rcases hg.ss with hss | ⟨-, hn, -⟩
     · rw [hss, toNat_ofNat_len hlen] at hle; exact hle
-    · exact absurd (hn htr).1 h0
-  have hss : (tr = [] ∧ g.streamSize = BitVec.ofNat 64 img.length) ∨
-      (g.streamSize = u64max ∧ (tr = [] → seg64_load_data_skip g.stype g.filesz = true ∧
-        (none : Option Bytes) = none)) := by
-    rcases hg.ss with h | ⟨hv, hn⟩
+    · exact absurd hn h0
+  have hss : g.streamSize = BitVec.ofNat 64 img.length ∨
+      (g.streamSize = u64max ∧ seg64_load_data_skip g.stype g.filesz = true ∧
+        (none : Option Bytes) = none) := by
+    rcases hg.ss with h | ⟨hv, hn, -⟩
     · exact Or.inl h
-    · exact Or.inr ⟨hv, fun ht => ⟨(hn ht).1, rfl⟩⟩
-  have hss' : ∀ d : Option Bytes, (tr = [] ∧ g.streamSize = BitVec.ofNat 64 img.length) ∨
-      (g.streamSize = u64max ∧ (tr = [] → seg64_load_data_skip g.stype g.filesz = true ∧ d = none)) := by
+    · exact Or.inr ⟨hv, hn, rfl⟩
+  have hss' : ∀ d : Option Bytes, g.streamSize = BitVec.ofNat 64 img.length ∨
+      (g.streamSize = u64max ∧ seg64_load_data_skip g.stype g.filesz = true ∧ d = none) := by
     intro d
-    rcases hg.ss with h | ⟨hv, hn⟩
+    rcases hg.ss with h | ⟨hv, hn, -⟩
     · exact Or.inl h
-    · exact Or.inr ⟨hv, fun ht => absurd (hn ht).1 h0⟩
+    · exact absurd hn h0
   have hst : StOk tr img kind
       { st := mergeFlags (segRead ls.st (dataOff tr g.offset) g.filesz).1 ls.st,
         allocs := ls.allocs ++ [(sec64_load_data_alloc g.filesz).toNat] } :=
@@ -741,17 +761,14 @@ theorem decodePhdr_zero_stype (c : Cls) (enc : Enc) (g : Seg) :
 theorem segHdr_inv (c : Cls) (enc : Enc) (tr : List Trans) (st : IStream) (hdrOff : Int) (isLazy : Bool)
     (img : Bytes) (hd : st.data = img) : LoadedSeg tr (segHdr c enc tr st hdrOff isLazy) img := by
   refine ⟨fun d hd => (by simp [segHdr] at hd), fun d hd => (by simp [segHdr] at hd), ?_⟩
-  cases tr with
-  | cons t tr => exact Or.inr ⟨by simp [segHdr, streamSizeOf_cons], fun h => by cases h⟩
-  | nil =>
-    rcases streamSizeOf_nil_size st with ⟨-, h2⟩ | ⟨h1, h2⟩
-    · exact Or.inl ⟨rfl, by simp [segHdr, h2, hd]⟩
-    · refine Or.inr ⟨by simp [segHdr, h2], fun _ => ⟨?_, by simp [segHdr]⟩⟩
-      have hz : (segHdr c enc [] st hdrOff isLazy).stype = 0 := by
-        unfold segHdr
-        rw [(hdrRead_failed [] st hdrOff (phdrSize c) h1).2]
-        exact decodePhdr_zero_stype c enc _
-      rw [hz]; unfold seg64_load_data_skip; rw [Bool.or_eq_true]; left; decide
+  rcases streamSizeOf_size tr st with ⟨-, h2⟩ | ⟨h1, h2⟩
+  · exact Or.inl (by simp [segHdr, h2, hd])
+  · refine Or.inr ⟨by simp [segHdr, h2], ?_, by simp [segHdr]⟩
+    have hz : (segHdr c enc tr st hdrOff isLazy).stype = 0 := by
+      unfold segHdr
+      rw [(hdrRead_failed tr st hdrOff (phdrSize c) h1).2]
+      exact decodePhdr_zero_stype c enc _
+    rw [hz]; unfold seg64_load_data_skip; rw [Bool.or_eq_true]; left; decide
 
 /-- `segment_impl::load` establishes the invariant -/
 theorem segLoad_spec (c : Cls) (enc : Enc) (tr : List Trans) (ls : LoadSt) (hdrOff : Int)
@@ -1212,10 +1229,9 @@ theorem secLoadData_pure (c : Cls) (ls : LoadSt) (b : SecBuf) (img : Bytes) (hd 
     rw [if_neg h4, if_neg h4]
     have hle := g_size_gt_false (by simpa using h2) (g_off_gt_false (by simpa using h1))
     have hss : b.streamSize = BitVec.ofNat 64 img.length := by
-      rcases hb.ss with ⟨-, hss⟩ | ⟨-, hn⟩
+      rcases hb.ss with hss | ⟨-, hn, -⟩
       · exact hss
-      · have := (hn rfl).1
-        simp [this] at h3
+      · simp [hn] at h3
     rw [hss, toNat_ofNat_len (by omega)] at hle
     by_cases h5 : (b.size != 0) = true
     · rw [if_pos h5]
@@ -1293,9 +1309,9 @@ theorem segLoadData_pure (c : Cls) (ls : LoadSt) (g : Seg) (img : Bytes) (hd : l
   rw [if_neg h4, if_neg h4]
   have hle := g_size_gt_false (by simpa using h2) (g_off_gt_false (by simpa using h1))
   have hss : g.streamSize = BitVec.ofNat 64 img.length := by
-    rcases hg.ss with ⟨-, hss⟩ | ⟨-, hn⟩
+    rcases hg.ss with hss | ⟨-, hn, -⟩
     · exact hss
-    · exact absurd (hn rfl).1 h0
+    · exact absurd hn h0
   rw [hss, toNat_ofNat_len (by omega)] at hle
   obtain ⟨e1, e2⟩ := segRead_inrange ls.st g.offset g.filesz
     (toInt_nonneg_of_lt (by omega)) (toInt_nonneg_of_lt (by omega)) (by rw [hd]; exact hle)
